@@ -78,3 +78,16 @@ Proof. intros s ops Hin HP. apply find_complete; [exact Hin | apply Permutation_
 (* op_key is injective on operations in table range, so Permutation of keys is Permutation of operations there *)
 Definition in_table_range (o : symop) : bool :=
   forallb (fun x => (0 <=? x)%Z && (x <? 12)%Z) (v3_entries (snd o)).
+
+(* an identifier is accepted only if it (or one of its normalisations) is a key of the table *)
+Lemma get_sound T id s : get_space_group T id = Some s -> exists k, lookup T k = Some s.
+Proof.
+  unfold get_space_group. intros H.
+  repeat match type of H with
+  | context [match lookup T ?k with _ => _ end] => let E := fresh "E" in destruct (lookup T k) eqn:E; [injection H as <-; eexists; exact E|]
+  | context [match id with _ => _ end] => destruct id; [discriminate|]
+  end.
+  discriminate.
+Qed.
+Lemma get_direct T id s : lookup T id = Some s -> get_space_group T id = Some s.
+Proof. unfold get_space_group. intros ->. reflexivity. Qed.
